@@ -152,28 +152,82 @@ def _steps_alone(cls, on_miss, op):
     return run_case(case).steps
 
 
+class _Sweep:
+    """Lazy, indexable list of sweep cases (the thorough floor has ~2M entries)."""
+
+    def __init__(self):
+        self.blocks = []        # (first index, count, maker(j) -> case)
+        self.n = 0
+
+    def add(self, count, maker):
+        if count > 0:
+            self.blocks.append((self.n, count, maker))
+            self.n += count
+
+    def __len__(self):
+        return self.n
+
+    def __getitem__(self, i):
+        import bisect
+        if i < 0 or i >= self.n:
+            raise IndexError(i)
+        b = bisect.bisect_right([blk[0] for blk in self.blocks], i) - 1
+        first, _count, maker = self.blocks[b]
+        return maker(i - first)
+
+
+_PRE = [[1, 'p0'], [2, 'p1']]
+MUTATORS = ('set', 'get', 'getd', 'setdefault', 'del', 'pop', 'popitem', 'clear', 'update', 'ior', 'copy')
+
+
 def fixed_cases(tier):
-    """Pre-emption-point sweep: the schedule analogue of crash-point enumeration."""
+    """Pre-emption-point sweep: the schedule analogue of crash-point enumeration.
+
+    quick and thorough: for every ordered pair (a, b) of SWEEP_OPS on a full 2-slot cache, both
+    classes: thread A runs a, is pre-empted once at each of its yield points k, thread B runs b.
+    thorough only: for every ordered pair of mutating operations additionally every PAIR of
+    pre-emption points: A pre-empted at k, B runs j steps and is pre-empted, A finishes, B finishes."""
     if tier in _FIXED:
         return _FIXED[tier]
-    cases = []
+    sw = _Sweep()
+    steps = {}
     for cls in ('LRI', 'LRU'):
         for on_miss in ('none', 'pure'):
             for ia, a in enumerate(SWEEP_OPS):
                 if on_miss == 'pure' and a[0] not in ('get', 'getd', 'setdefault'):
                     continue
                 a1 = _retag(a, 'a')
-                n = _steps_alone(cls, on_miss, a1)
+                n = steps[(cls, on_miss, ia)] = _steps_alone(cls, on_miss, a1)
                 for ib, b in enumerate(SWEEP_OPS):
                     if on_miss == 'pure' and tier == 'quick' and ib % 2:
                         continue
                     b1 = _retag(b, 'b')
-                    for k in range(1, n + 1):
-                        cases.append({'cls': cls, 'max_size': 2, 'on_miss': on_miss,
-                                      'preload': [[1, 'p0'], [2, 'p1']], 'threads': [[a1], [b1]],
-                                      'sched': {'kind': 'explicit', 'switches': [[k, 1]]}})
-    _FIXED[tier] = cases
-    return cases
+
+                    def mk(j, cls=cls, on_miss=on_miss, a1=a1, b1=b1):
+                        return {'cls': cls, 'max_size': 2, 'on_miss': on_miss, 'preload': _PRE,
+                                'threads': [[a1], [b1]], 'sched': {'kind': 'explicit', 'switches': [[j + 1, 1]]}}
+                    sw.add(n, mk)
+    if tier == 'thorough':
+        for cls in ('LRI', 'LRU'):
+            for ia, a in enumerate(SWEEP_OPS):
+                if a[0] not in MUTATORS:
+                    continue
+                a1 = _retag(a, 'a')
+                na = steps[(cls, 'none', ia)]
+                for ib, b in enumerate(SWEEP_OPS):
+                    if b[0] not in MUTATORS:
+                        continue
+                    b1 = _retag(b, 'b')
+                    nb = steps[(cls, 'none', ib)]
+
+                    def mk2(j, cls=cls, a1=a1, b1=b1, nb=nb):
+                        k1, k2 = j // nb + 1, j % nb + 1
+                        return {'cls': cls, 'max_size': 2, 'on_miss': 'none', 'preload': _PRE,
+                                'threads': [[a1], [b1]],
+                                'sched': {'kind': 'explicit', 'switches': [[k1, 1], [k1 + k2, 0]]}}
+                    sw.add(na * nb, mk2)
+    _FIXED[tier] = sw
+    return sw
 
 
 def case_size(case):
